@@ -12,6 +12,8 @@ pub const WORLD: &str = "/proc/self/cwd/w";
 pub struct Pool {
     pub scratch: String,
     workers: usize,
+    /// live worker processes, reused across `run` calls
+    idle: Mutex<Vec<Worker>>,
 }
 
 struct Worker {
@@ -61,7 +63,7 @@ impl Pool {
         let scratch = format!("/dev/shm/harper-verif.{}", std::process::id());
         let _ = std::fs::remove_dir_all(&scratch);
         std::fs::create_dir_all(&scratch)?;
-        Ok(Pool { scratch, workers: workers.max(1) })
+        Ok(Pool { scratch, workers: workers.max(1), idle: Mutex::new(vec![]) })
     }
 
     /// Run all jobs; `on_result` is called (on the calling thread) as results arrive.
@@ -78,59 +80,69 @@ impl Pool {
         let n = self.workers.min(jobs.len());
         let queue = Arc::new(Mutex::new(jobs.into_iter().rev().collect::<Vec<Job>>()));
         let (tx, rx) = mpsc::channel::<Result<(Job, RunResult), String>>();
-        let mut handles = vec![];
-        for _ in 0..n {
-            let queue = queue.clone();
-            let tx = tx.clone();
-            let scratch = self.scratch.clone();
-            handles.push(std::thread::spawn(move || {
-                let mut w = match spawn_worker(&scratch) {
-                    Ok(w) => w,
-                    Err(e) => {
-                        let _ = tx.send(Err(format!("cannot start worker: {e}")));
-                        return;
-                    }
-                };
-                loop {
-                    let job = { queue.lock().unwrap().pop() };
-                    let Some(job) = job else { break };
-                    let line = format!("{:05} {}\n", watchdog_secs.min(99_999), serde_json::to_string(&job).unwrap());
-                    if line.len() >= (1 << 16) {
-                        let _ = tx.send(Err("job line too long".into()));
-                        break;
-                    }
-                    if w.stdin.write_all(line.as_bytes()).is_err() || w.stdin.flush().is_err() {
-                        let _ = tx.send(Err("worker stdin closed".into()));
-                        break;
-                    }
-                    let mut out = String::new();
-                    match w.stdout.read_line(&mut out) {
-                        Ok(0) | Err(_) => {
-                            let _ = tx.send(Err("worker died".into()));
+        let mut err = None;
+        std::thread::scope(|sc| {
+            for _ in 0..n {
+                let queue = queue.clone();
+                let tx = tx.clone();
+                let scratch = self.scratch.clone();
+                let idle = &self.idle;
+                sc.spawn(move || {
+                    let reused = { idle.lock().unwrap().pop() };
+                    let mut w = match reused {
+                        Some(w) => w,
+                        None => match spawn_worker(&scratch) {
+                            Ok(w) => w,
+                            Err(e) => {
+                                let _ = tx.send(Err(format!("cannot start worker: {e}")));
+                                return;
+                            }
+                        },
+                    };
+                    let mut healthy = true;
+                    loop {
+                        let job = { queue.lock().unwrap().pop() };
+                        let Some(job) = job else { break };
+                        let line = format!("{:05} {}\n", watchdog_secs.min(99_999), serde_json::to_string(&job).unwrap());
+                        if line.len() >= (1 << 16) {
+                            let _ = tx.send(Err("job line too long".into()));
                             break;
                         }
-                        Ok(_) => {}
+                        if w.stdin.write_all(line.as_bytes()).is_err() || w.stdin.flush().is_err() {
+                            let _ = tx.send(Err("worker stdin closed".into()));
+                            healthy = false;
+                            break;
+                        }
+                        let mut out = String::new();
+                        match w.stdout.read_line(&mut out) {
+                            Ok(0) | Err(_) => {
+                                let _ = tx.send(Err("worker died".into()));
+                                healthy = false;
+                                break;
+                            }
+                            Ok(_) => {}
+                        }
+                        let res = parse_result(&job, out.trim_end());
+                        if tx.send(Ok((job, res))).is_err() {
+                            break;
+                        }
                     }
-                    let res = parse_result(&job, out.trim_end());
-                    if tx.send(Ok((job, res))).is_err() {
-                        break;
+                    if healthy {
+                        idle.lock().unwrap().push(w);
+                    } else {
+                        drop(w.stdin);
+                        let _ = w.child.wait();
                     }
-                }
-                drop(w.stdin);
-                let _ = w.child.wait();
-            }));
-        }
-        drop(tx);
-        let mut err = None;
-        for m in rx {
-            match m {
-                Ok((job, res)) => on_result(&job, res),
-                Err(e) => err = Some(e),
+                });
             }
-        }
-        for h in handles {
-            let _ = h.join();
-        }
+            drop(tx);
+            for m in rx {
+                match m {
+                    Ok((job, res)) => on_result(&job, res),
+                    Err(e) => err = Some(e),
+                }
+            }
+        });
         match err {
             Some(e) => Err(e),
             None => Ok(()),
@@ -140,6 +152,12 @@ impl Pool {
 
 impl Drop for Pool {
     fn drop(&mut self) {
+        for w in self.idle.lock().unwrap().drain(..) {
+            let Worker { mut child, stdin, stdout } = w;
+            drop(stdin);
+            drop(stdout);
+            let _ = child.wait();
+        }
         let _ = std::fs::remove_dir_all(&self.scratch);
     }
 }
